@@ -19,7 +19,13 @@ line/column == recomputed from the original bytes; rendered header == locus;
 the text under the primary label is the construct the message is about (table
 code -> predicate over the generator's recorded byte ranges); every finding
 the CLI displays / writes to SARIF carries exactly the recomputed line:column
-and region."""
+and region.  Provenance clause (harness mode `provenance`): every node of the
+CFG built by into_cfg has the (start, end, file id) of an AST node of the
+corresponding kind of the definition body; every node after into_ssa is such a
+node or an inserted phi with Meta::default() (the SSA half is PROVED for the
+mirror: C04_ssa_blocks_from_input).  The extracted Model.Labels.location /
+sarif_region (coq/extract/locations.*) is run against FileLibrary /
+sarif_conversion.rs / the renderer on bare texts (harness mode `codespan`)."""
 import collections
 import concurrent.futures
 import glob
@@ -572,6 +578,11 @@ def allowed_ranges(report, label, spans, src, primary=True):
         return "statement assigning `%s`" % name, rng(ok)
     if code == "CS0009":
         return "condition of an if", rng(spans_where(spans, ("cond",)))
+    if code == "CS0018" and not primary:
+        # no such label on the unchanged tree; a label about the signal must be its declaration IN THE FILE THE LABEL NAMES
+        # (the spans handed in are those of that file): seeded/C04-cross-file-secondary-label
+        name = base_name(tick(lmsg))
+        return "declaration of the output signal `%s` in the file the label names" % name, rng(spans_where(spans, ("decl",), name, sig=True))
     if code in ("CS0010", "CS0016", "CS0018"):
         name = tick(lmsg)
         return "instantiation of `%s`" % name, rng(spans_where(spans, ("expr",), callee=name))
@@ -1196,9 +1207,14 @@ def run(ctx, proofs):
                     "scalars over {a, LF, CR, e-acute}, fixed edge cases (empty, only newlines, no final newline, empty last "
                     "line, lone CR, BOM, U+2028, 4-byte scalars), random texts over 18 scalars, windows of generated files"},
         "failures_by_clause": dict(by_clause),
-        "open_statements": ["meta provenance through IR lifting and SSA (lift_metas_from_ast, ssa_metas) is the explicit second "
-                            "hypothesis of C04_labels_wellformed_end_to_end; the desugarer's part (desugar_metas_from_input) is "
-                            "proved (Proofs.DesugarMetas, cited as C04_desugar_metas_from_input / C04_desugared_ranges_wellformed)"],
+        "open_statements": ["meta provenance through IR LIFTING (lift_metas_from_ast: every node of the CFG built by into_cfg carries the "
+                            "meta of the AST node it comes from) is hypothesis 3 of C04_labels_wellformed_through_desugaring_and_ssa: the "
+                            "lifting mirror Model.Lift works on skeletons without metas (C04_lift_nodes_are_source_nodes is all it says); "
+                            "observed node by node by the provenance clause. The desugarer's part (C04_desugar_metas_from_input) and the SSA "
+                            "construction's part (C04_ssa_blocks_from_input / C04_ssa_metas_from_input, statement metas; the IR mirror has no "
+                            "expression metas) are proved",
+                            "parser_ranges_wellformed (LALRPOP @L/@R) stays a hypothesis of every inheritance theorem; the only label whose "
+                            "validity is proved outright is the unclosed-comment one (C04_unclosed_comment_label_valid)"],
         "samples": [{"origin": sample.get("origin"), "style": sample.get("style"),
                      "main.circom": sample["files"]["main.circom"][:1200]}] if sample else [],
     })
@@ -1206,9 +1222,14 @@ def run(ctx, proofs):
         "parser_ranges_wellformed: LALRPOP's @L/@R are byte offsets into the pre-processed text with start <= end, inside "
         "the text, on scalar boundaries — hypothesis of the Coq theorems, observed here on every label (range, UTF-8 "
         "boundary and token-boundary clauses against an independent Python lexer of the ORIGINAL text)",
-        "meta provenance through IR lifting and SSA (every IR node carries the meta of the AST node it comes from, or "
-        "Meta::default()) is a hypothesis, observed through the token-boundary and construct clauses; the desugarer's part "
-        "is proved (agent-C18's Proofs.DesugarMetas)",
+        "meta provenance through IR lifting (every node of the CFG carries the meta of the AST node it comes from) is a hypothesis "
+        "of the end-to-end theorem, observed directly node by node (statements and expressions, kind by kind) by the provenance "
+        "clause on every definition of every generated project; the desugarer's part is proved (agent-C18's Proofs.DesugarMetas) "
+        "and so is the SSA construction's for statement metas (Proofs.LabelsSsa over Model.Ssa, the mirror C14's engine compares "
+        "with the real into_ssa, statement metas included); expression metas are not in the IR mirror: for them SSA provenance is "
+        "observed by the same clause",
+        "Model.Labels.location / sarif_region are compared, extracted, with the real code only on bare texts of at most ~70 scalars "
+        "(the faithful mirror is quadratic); on project files codespan's answers are compared with the Python recomputation",
         "codespan's terminal renderer is a black box: the header line `file:line:col` of every rendered diagnostic is "
         "compared with the recomputation, the snippet drawing is not",
         "columns are 1-based counts of Unicode scalar values from the line start (lines end at LF; CR counts as a "
